@@ -444,7 +444,12 @@ def check_groove(ctx, cname, subset, kwargs, g, scale, iterative, given, observe
     pts, psi, z_face, deepest = trace(g)
     ok = True
     if min(g.alpha2, g.alpha3, g.alpha4) < -1e-9:
-        ctx.count("observed:negative-resolved-angle:" + cname)      # a root outside the geometric range was accepted (F7/C03)
+        # a root outside the geometric range was accepted (hybr converged to alpha2 < 0): an arc runs backwards, "re-tracing"
+        # is no longer defined by the property text, the contour is malformed (deepest point != depth, z not monotone).
+        # That such roots are not rejected is defect F7 of DESIGN section 6 = property C03 (contour validity); here the
+        # case is counted and the consistency checks are only observed, so that C04 does not re-report F7.
+        ctx.count("observed:negative-resolved-angle:" + cname)
+        observe_only = True
 
     def bad(key, what):
         nonlocal ok
@@ -822,7 +827,8 @@ def run_case(ctx, corr, log, cname, subset, fixed, vals, info, cross=True, corpu
         if sb == subset:
             continue
         if any(dv.get(k) is None for k in sb):
-            ctx.violation("derived-missing:" + cname, f"{tag}: derived parameter(s) "
+            ctx.violation("derived-missing:" + cname + ":" + "+".join(k for k in sb if dv.get(k) is None),
+                          f"{tag}: derived parameter(s) "
                           f"{[k for k in sb if dv.get(k) is None]} are not resolved on the finished groove",
                           {"class": cname, "kwargs": kwargs})
             continue
@@ -881,6 +887,9 @@ CORPUS = [
     # hybr converges to alpha2 = -20 deg: consistent by analytic continuation (first tracer version raised a false alarm)
     ("UpsetOvalGroove", (), dict(r1=0.15454456711676287, r2=1.680207357337541, r3=1.0538033462193825,
                                  depth=0.2946666044803175, usable_width=1.5960243604546456, pad_angle=0.0), {}, 1.68),
+    # hybr root alpha2 = -28.6 deg, alpha3 = 92 deg: deepest point of the continued chain 0.0204 != depth 0.0164 (F7, observed)
+    ("UpsetOvalGroove", (), dict(r1=0.016380745046609083, r2=0.1372446407160309, r3=0.060057380014384966,
+                                 depth=0.01643621243980193, usable_width=0.11181909976728459, pad_angle=45.0), {}, 0.137),
     # two consistent grooves share (r2, usable_width, flank_height): depth-unknown residual is not monotone
     ("FalseRoundGroove", ("r2", "depth", "flank_angle"), dict(r1=0.005441880190487969, pad_angle=45.0),
      dict(r2=0.014124976106408685, depth=0.017315341354535888, flank_angle=67.63658566317352), 0.0141),
@@ -911,10 +920,12 @@ def run(ctx):
     with instrumented(log):
         for (cname, subset, fixed, vals, scale) in CORPUS:
             run_case(ctx, corr, log, cname, subset, fixed, vals, dict(scale=scale), cross=True, corpus=True)
-        n = ctx.budget(10, 240)
+        n0 = ctx.budget(10, 240)
         for cname in ALL_CLASSES + DIRECT:
-            for subset in subsets_of(cname):
+            subsets = subsets_of(cname)
+            for subset in subsets:
                 built = 0
+                n = n0 * (3 if len(subsets) == 1 else 1)      # classes with a single admissible subset get their share
                 for i in range(n):
                     fixed, vals, info = draw(ctx.rng, cname)
                     g = run_case(ctx, corr, log, cname, subset, fixed, vals, info)
